@@ -57,28 +57,13 @@ pub fn load_configs_raw(config_files: Vec<PathBuf>, partial_emmyrcs: Option<Vec<
         }
     }
 
-    if config_jsons.is_empty() {
-        log::info!("No valid config file found.");
-        Value::Object(Default::default())
-    } else if config_jsons.len() == 1 {
-        let first_config = config_jsons.into_iter().next().unwrap_or_else(|| {
-            log::error!("No valid config file found.");
-            Value::Object(Default::default())
-        });
-
-        let flatten_config = FlattenConfigObject::parse(first_config);
-        flatten_config.to_emmyrc()
-    } else {
-        let merge_config =
-            config_jsons
-                .into_iter()
-                .fold(Value::Object(Default::default()), |mut acc, item| {
-                    merge_values(&mut acc, item);
-                    acc
-                });
-        let flatten_config = FlattenConfigObject::parse(merge_config.clone());
-        flatten_config.to_emmyrc()
+    // every file is flattened before it is merged, so that the flat (`"a.b": 1`) and the nested
+    // (`"a": {"b": 1}`) spelling of one setting meet and the later file wins
+    let mut flatten_config = FlattenConfigObject::default();
+    for config_json in config_jsons {
+        flatten_config.merge(FlattenConfigObject::parse(config_json));
     }
+    flatten_config.to_emmyrc()
 }
 
 pub fn load_configs(config_files: Vec<PathBuf>, partial_emmyrcs: Option<Vec<Value>>) -> Emmyrc {
@@ -89,7 +74,7 @@ pub fn load_configs(config_files: Vec<PathBuf>, partial_emmyrcs: Option<Vec<Valu
     })
 }
 
-fn merge_values(base: &mut Value, overlay: Value) {
+pub(super) fn merge_values(base: &mut Value, overlay: Value) {
     match (base, overlay) {
         (Value::Object(base_map), Value::Object(overlay_map)) => {
             for (key, overlay_value) in overlay_map {
